@@ -17,12 +17,12 @@ def main():
         assert rc == 0, out
     for pid in sys.argv[1:]:
         rnd = os.environ.get("ROUND", "1")
-        src = {"1": "/tmp/wt_%s/MUTATION", "2": "/tmp/w2_%s/MUTATION", "3": "/tmp/w3_%s/MUTATION", "4": "/tmp/w4_%s/MUTATION", "5": "/tmp/w5_%s/MUTATION", "6": "/tmp/w6_%s/MUTATION"}[rnd] % pid
+        src = {"1": "/tmp/wt_%s/MUTATION", "2": "/tmp/w2_%s/MUTATION", "3": "/tmp/w3_%s/MUTATION", "4": "/tmp/w4_%s/MUTATION", "5": "/tmp/w5_%s/MUTATION", "6": "/tmp/w6_%s/MUTATION", "7": "/tmp/w7_%s/MUTATION"}[rnd] % pid
         if not os.path.isdir(src):
             print(pid, "no deliverables"); continue
         meta = json.load(open(os.path.join(src, "meta.json")))
         for ab in ("a", "b"):
-            d = os.path.join(ROOT, "%s-%s" % (pid, {"1": {"a": "a", "b": "b"}, "2": {"a": "c", "b": "d"}, "3": {"a": "e", "b": "f"}, "4": {"a": "g", "b": "h"}, "5": {"a": "i", "b": "j"}, "6": {"a": "k", "b": "l"}}[rnd][ab]))
+            d = os.path.join(ROOT, "%s-%s" % (pid, {"1": {"a": "a", "b": "b"}, "2": {"a": "c", "b": "d"}, "3": {"a": "e", "b": "f"}, "4": {"a": "g", "b": "h"}, "5": {"a": "i", "b": "j"}, "6": {"a": "k", "b": "l"}, "7": {"a": "m", "b": "n"}}[rnd][ab]))
             if not os.path.exists(os.path.join(src, ab + ".diff")):
                 continue
             os.makedirs(d, exist_ok=True)
